@@ -93,6 +93,7 @@ func genPlan(t *rapid.T, o genOpts) *world.Plan {
 				SwapIndex: rapid.IntRange(0, 2).Draw(t, "swapidx"),
 				Change:    rapid.Bool().Draw(t, "change"),
 				Extra:     rapid.IntRange(0, 1).Draw(t, "extra"),
+				SpendChange: rapid.Bool().Draw(t, "spendchange"),
 			}
 		}
 	}
